@@ -60,8 +60,8 @@ CLAIMS = {
         note="Trusted: concurrent.futures semantics table (Executor.map preserves submission order; `with` joins). Partial claim.",
         ref="2/C10"),
     "C11": dict(
-        technique="guarded-stepping rule (control dependence of stepping on step/target); return-expression form; polynomial form of the imaginary-time label; term-wise magnitude bound of the eta kernel beyond its overflow guard on the imaginary-time axis; degree-of-homogeneity calculus on the truncation comparisons of the Gibbs back end",
-        text="Decides that repeating GibbsTempo.compute is idempotent (K1), that the returned state is X/X.trace() on every path (K2) the imaginary-time slice/label forms (K3), Matsubara coefficients on the imaginary-time grid (K4), even transposition parity of every propagator factor of the path (K5: orientation of the thermal state), Matsubara flag in every memo key (K6). Equality with the reduced thermal state is not decided. K8: the thermal eta kernel beyond its overflow guard keeps every term not bounded by exp(-w/T) for Matsubara arguments. K9: the Gibbs back end truncates relative to the largest singular value only (no absolute floor).",
+        technique="guarded-stepping rule (control dependence of stepping on step/target); return-expression form; polynomial form of the imaginary-time label; term-wise magnitude bound of the eta kernel beyond its overflow guard on the imaginary-time axis; degree-of-homogeneity calculus on the truncation comparisons of the Gibbs back end; adjoint check of spectral reconstructions (eigh / eig eigenvector matrices)",
+        text="Decides that repeating GibbsTempo.compute is idempotent (K1), that the returned state is X/X.trace() on every path (K2) the imaginary-time slice/label forms (K3), Matsubara coefficients on the imaginary-time grid (K4), even transposition parity of every propagator factor of the path (K5: orientation of the thermal state), Matsubara flag in every memo key (K6). Equality with the reduced thermal state is not decided. K8: the thermal eta kernel beyond its overflow guard keeps every term not bounded by exp(-w/T) for Matsubara arguments. K9: the Gibbs back end truncates relative to the largest singular value only (no absolute floor). K10: a matrix function rebuilt from eigh(H) uses the conjugate transpose of the eigenvector matrix.",
         note="Trusted: def-use/CFG engine. Partial claim.",
         ref="2/C11"),
     "C12": dict(
@@ -80,8 +80,8 @@ CLAIMS = {
         note="Trusted: effect tables (which attributes hold user callables - frozen with the chain that proves it). Numerical identity across the dkmax boundary not decided.",
         ref="2/C14"),
     "C15": dict(
-        technique="polynomial forms: coefficient of START in every manufactured/consumed absolute time; START plumbing by role binding; call-graph reachability of user time-dependent callables; affine typing of recorded times in the result containers (points vs differences); coefficient sums of start and end time in the sample grids of the parameter estimator; truthiness tests of time parameters",
-        text="Decides that every absolute time handed to a user callable or used as a label is START + (START-free), every float time is rounded as (t-START)/DT (U1), each front end forwards its own start time (U2), and no user time-dependent callable is reached from a site outside the table (U3). U4: the result containers never use a recorded time as a magnitude and never compare it through a relative tolerance. U5: the parameter estimator samples a time-dependent system on the window of the computation (the premise of a former exemption, now checked). U6: the time origin t = 0 takes no special branch (no truthiness test of a time parameter).",
+        technique="polynomial forms: coefficient of START in every manufactured/consumed absolute time; START plumbing by role binding; call-graph reachability of user time-dependent callables; affine typing of recorded times in the result containers (points vs differences); coefficient sums of start and end time in the sample grids of the parameter estimator; truthiness tests of time parameters; memo-key rule over the system classes",
+        text="Decides that every absolute time handed to a user callable or used as a label is START + (START-free), every float time is rounded as (t-START)/DT (U1), each front end forwards its own start time (U2), and no user time-dependent callable is reached from a site outside the table (U3). U4: the result containers never use a recorded time as a magnitude and never compare it through a relative tolerance. U5: the parameter estimator samples a time-dependent system on the window of the computation (the premise of a former exemption, now checked). U6: the time origin t = 0 takes no special branch (no truthiness test of a time parameter). U7: no memo in the system classes leaves start_time (or anything else the stored value depends on) out of its key.",
         note="Trusted: forms engine; role vocabulary. Floating-point non-associativity not decided.",
         ref="2/C15"),
     "C16": dict(
